@@ -3,9 +3,19 @@
 # no forbidden token in the Lean sources, every theorem module and driver builds, every harness binary builds.
 # Used while several builders edit their own areas concurrently (a property's own quick check is run separately).
 cd /verif
-if grep -rnE '\b(sorry|admit|native_decide)\b' lean/YashModel --include=*.lean | grep -v '^\S*:\s*[0-9]*:\s*--' | grep -vE '/--|--.*(sorry|admit|native_decide)' | head -3 | grep -q .; then
-  echo "snapshot: forbidden token on disk"; grep -rnE '\b(sorry|admit|native_decide)\b' lean/YashModel --include=*.lean | head -5; exit 1
-fi
+if ! python3 - <<'PY'
+import glob, re, sys
+sys.path.insert(0, "/verif/tools")
+import check
+bad = []
+for f in glob.glob("/verif/lean/YashModel/**/*.lean", recursive=True):
+    src = check.strip_lean_comments(open(f).read())
+    if re.search(r"\b(sorry|admit|native_decide)\b", src):
+        bad.append(f)
+if bad:
+    print("snapshot: forbidden token on disk:", *bad[:5]); sys.exit(1)
+PY
+then exit 1; fi
 python3 tools/check.py --setup > /tmp/snapshot_setup.log 2>&1 || { echo "snapshot: setup failed"; grep -n "error" /tmp/snapshot_setup.log | head; exit 1; }
 python3 tools/gen_manifest.py >/dev/null; python3 tools/gen_status.py >/dev/null 2>&1
 git add -A
